@@ -9,8 +9,9 @@
 //!   × every operator, blend mode, compose operator and colour difference × f32/f64,
 //! each call under `catch_unwind`.  Oracle clauses: `no-panic:<op>:<types>:<T>` and `finite:<op>:<types>:<T>`; a non-finite
 //! result that belongs to a listed finding carries that finding's prefix instead (`powlaw-nan:`, `powlaw-nan-out-of-gamut:`,
-//! `hsluv-at-L0:`/`hsluv-at-L100:`, `hsl-white-inf:`, `luv-vprime-zero:`, `cam16-negative-achromatic:`), every other non-finite
-//! result is a violation.
+//! `hsluv-at-L0:`/`hsluv-at-L100:`, `luv-vprime-zero:`, `cam16-negative-achromatic:`), every other non-finite
+//! result is a violation.  `hsl-white-inf:` is the prefix of a REPAIRED defect (c404fc5, `fixed:` in known_findings.json): no
+//! finding matches it any more, so a recurrence is a violation that names the old defect.
 //! Correspondence: the hand-written edges are replayed by the Lean driver (`convfin` = the `conv` comparison plus agreement of
 //! the finite / NaN / ±inf class of every component).
 #![allow(clippy::too_many_arguments, clippy::type_complexity)]
@@ -201,7 +202,8 @@ fn run_pairs<T: Direct>(out: &mut Out, thorough: bool) {
                 let r = match r { Some(None) => { present = false; out.count("cls:pair-not-in-crate"); continue; } Some(Some(v)) => Some(v), None => None };
                 out.count(&format!("cls:pair:{}", an));
                 let known = |v: &[T]| -> Option<String> {
-                    // Rgb -> Hsl divides by 2 - (max + min): a white that arrives as (1+ulp, 1-ulp, 1) has max != min and max + min == 2 in T
+                    // Rgb -> Hsl divided by (1 - max) + (1 - min): a white that arrives as (1+ulp, 1-ulp, 1) has max != min and that divisor exactly 0.
+                    // Repaired by c404fc5 (saturation 0 when the selected divisor is 0): the clause stays, nothing lists it, a recurrence is a violation
                     if bn == "Hsl" && v.len() == 3 && v[1].to64().is_infinite() && v[2].to64() == 1.0 && v[0].finite() { return Some("hsl-white-inf".to_string()); }
                     // the Hsluv poles: on the way into Hsluv (L* of the colour) or out of it (its own l)
                     if bn == "Hsluv" && an != "Hsluv" { if let Some(Some(l)) = guard(|| T::direct(a, lchuv, &x)) { if let Some(k) = hsluv_pole(l[0].to64()) { return Some(k.to_string()); } } }
@@ -257,7 +259,8 @@ where S: ArrayCast<Array = [T; N]>, D: ArrayCast<Array = [T; M]> + FromColorUncl
                 }
                 Kn::Hsluv => { let l = if base == "Hsluv" { a[2].to64() } else { a[0].to64() }; hsluv_pole(l).map(|k| k.to_string()) }
                 Kn::HslStd => {
-                    // white (lightness exactly 1) arriving as (1+ulp, 1-ulp, 1): max != min and max + min rounds to 2
+                    // white (lightness exactly 1) arriving as (1+ulp, 1-ulp, 1): max != min and (1 - max) + (1 - min) == 0 (repaired by c404fc5;
+                    // not listed any more: a recurrence is a violation under the old name)
                     if dst.starts_with("Hsl:") && v.len() == 3 && v[1].to64().is_infinite() && v[2].to64() == 1.0 && v[0].finite() { Some("hsl-white-inf".to_string()) }
                     else if v.iter().any(|x| x.to64().is_nan()) && in_gamut_min(&a) < 0.0 { Some(if in_gamut_min(&a) >= -1e-6 { "powlaw-nan".to_string() } else { "powlaw-nan-out-of-gamut".to_string() }) }
                     else { None }
